@@ -218,6 +218,64 @@ Definition create (by_struct : bool) (names : list name) (data : list (list val)
         else Err "ValueError"                      (* type of a field cannot be determined *)
     end.
 
+(* createDataFrame over rows that carry their OWN field names -- pysparkling Row objects
+   ([is_row] = true) or collections.namedtuple instances -- as a local list or as an RDD.
+   * schema = list/tuple of names (or None = []): _infer_schema takes the names from the rows
+     (row.__fields__ / row._fields, the given names are NOT used and NOT padded), the rename loop then
+     overwrites the first len(names) of them in .fields and in .names;
+   * schema = StructType (or DDL string): a namedtuple is treated as a plain tuple; a Row is verified
+     by looking every struct field up BY NAME (no length check), and StructType.toInternal
+     (_match_fields_by_name) rebuilds it by name in schema order whenever the row's own names are
+     duplicate-free and differ from the struct's; otherwise the Row goes through unchanged. *)
+Fixpoint names_eqb (a b : list name) : bool :=
+  match a, b with
+  | [], [] => true
+  | x :: a', y :: b' => name_eqb x y && names_eqb a' b'
+  | _, _ => false
+  end.
+(* StructType.toInternal on a Row (_match_fields_by_name): the values are taken BY NAME in the order of
+   the struct's names whenever the row's own names are duplicate-free, differ from the struct's names
+   and contain every one of them; otherwise the Row is handed on unchanged *)
+Definition match_by_name (own names : list name) (d : list val) : res (list val) :=
+  if negb (names_eqb own names) && nodup_names own && forallb (fun n => mem_name n own) names
+  then mapM (row_get (own, d)) names
+  else Ok d.
+
+Definition create_rows (is_row by_struct : bool) (own names : list name) (data : list (list val)) : res pre :=
+  if negb (forallb (fun d => Nat.eqb (length d) (length own)) data) then Err "BadCase"
+  else if by_struct then
+    if negb is_row then
+      if forallb (fun d => Nat.eqb (length d) (length names)) data
+      then Ok (struct_of (map PNew names) (map (fun d => (names, d)) data) true true)
+      else Err "ValueError"
+    else
+      match data with
+      | [] => Ok (struct_of (map PNew names) [] true true)
+      | _ =>
+        if negb (forallb (fun n => mem_name n own) names) then Err "ValueError"   (* obj[f]: no such field *)
+        else
+          do rs <- mapM (fun d => do vs <- match_by_name own names d; Ok (names, vs)) data;
+          Ok (struct_of (map PNew names) rs true true)
+      end
+  else
+    match data with
+    | [] => Err "ValueError"
+    | first :: rest =>
+        let typed (j : nat) (nm : name) : bool :=
+            nonnull (nth_error first j)
+            || existsb (fun d => match last_index nm own 0 None with
+                                 | Some k => nonnull (nth_error d k) | None => false end) rest in
+        if forallb (fun jn => typed (fst jn) (snd jn)) (combine (seq 0 (length own)) own)
+        then
+          do fnames <- rename_loop names 0 own;
+          do nnames <- rename_loop names 0 own;
+          (* the renamed struct converts every row: a Row (not a namedtuple) is again matched by name *)
+          do rs <- mapM (fun d => do vs <- (if is_row then match_by_name own fnames d else Ok d);
+                                  Ok (fnames, vs)) data;
+          Ok (mkPre (map PNew fnames) nnames rs true true)
+        else Err "ValueError"
+    end.
+
 (* range(start, end, step) *)
 Definition py_range (start stop step : Z) : list Z :=
   if step >? 0 then
@@ -614,7 +672,8 @@ Inductive instr :=
 | ILimit (src : nat) (n : Z)
 | IDistinct (src : nat)
 | ISample (src : nat) (wr : bool) (a m : Z)
-| IRepartition (src : nat) (cols : list expr).
+| IRepartition (src : nat) (cols : list expr)
+| ICreateRows (is_row by_struct : bool) (own names : list name) (data : list (list val)).
 
 Definition get (env : list frame) (i : nat) : res frame :=
   match nth_error env i with Some f => Ok f | None => Err "BadCase" end.
@@ -641,6 +700,7 @@ Definition step (env : list frame) (i : instr) : res pre :=
   | IDistinct s => do f <- get env s; do _ <- need_val f; distinct f
   | ISample s wr a m => do f <- get env s; do _ <- need_val f; sample_with (script_mult wr a m) f
   | IRepartition s cols => do f <- get env s; repartition f cols
+  | ICreateRows r m own names data => create_rows r m own names data
   end.
 
 (* runs the program until the first step that raises; returns the frames built so far *)
